@@ -43,15 +43,20 @@ Qed.
 Definition order_ok (a : attrs) : bool :=
   match aget (S "order") a with Some (VInt z) => (0 <=? z) && (z <=? 4) | _ => false end.
 (** "plain" graph: node keys distinct, adjacency lists mention only nodes, every node has a string fragname and
-    neither `bonding` nor `aromatic`, every adjacency entry carries an integer order 0..4 *)
+    no `bonding`, every adjacency entry carries an integer order 0..4.  An `aromatic` attribute is allowed: it only
+    makes pysmiles' _write_edge_symbol write a single bond between two aromatic nodes explicitly ('-') *)
 Definition plain_graph (g : graph) : bool :=
   graph_wf g
   && forallb (fun n => match aget (S "fragname") (na n) with Some (VStr _) => true | _ => false end
-                       && negb (ahas (S "bonding") (na n)) && negb (ahas (S "aromatic") (na n))
+                       && negb (ahas (S "bonding") (na n))
                        && forallb (fun wa => order_ok (snd wa)) (nadj n)) g.
 Definition name_of (g : graph) (k : Z) : pystr := match node_name g k with Some s => s | None => [] end.
 Definition order_of (g : graph) (p k : Z) : Z := match edge_get g p k (S "order") with Some (VInt z) => z | _ => 1 end.
-Definition esym_of (g : graph) (p k : Z) : option sym := osym_of (order_of g p k).
+(** molecule.nodes[k].get('aromatic', False), as a truth value *)
+Definition arom_of (g : graph) (k : Z) : bool := match node_get g k (S "aromatic") with Some v => truthy v | None => false end.
+(** the symbol written on an edge: by the order, and '-' for a single bond between two aromatic nodes *)
+Definition esym_of (g : graph) (p k : Z) : option sym :=
+  if arom_of g p && arom_of g k && Z.eqb (order_of g p k) 1 then Some SSingle else osym_of (order_of g p k).
 
 Lemma in_keys_gfind g k : In k (node_keys g) -> exists n, gfind k g = Some n /\ In n g.
 Proof.
@@ -75,7 +80,7 @@ Section Plain.
   Proof.
     intros Hk. destruct (in_keys_gfind g k Hk) as [n [Hf Hn]].
     unfold plain_graph in Hp. apply andb_prop in Hp as [_ H]. rewrite forallb_forall in H. specialize (H n Hn).
-    apply andb_prop in H as [H _]. apply andb_prop in H as [H Ha]. apply andb_prop in H as [Hname Hb].
+    apply andb_prop in H as [H _]. apply andb_prop in H as [Hname Hb].
     destruct (aget (S "fragname") (na n)) as [[| | | |s| | |]|] eqn:E; try discriminate.
     apply negb_true_iff in Hb. unfold ahas in Hb. destruct (aget (S "bonding") (na n)) eqn:Eb; [discriminate|].
     unfold node_text. rewrite format_node_eq. unfold bonding_suffix, node_attrs, ntext, name_of, node_name, node_get. rewrite Hf.
@@ -83,18 +88,28 @@ Section Plain.
   Qed.
   Lemma plain_edge p k : In k (neighbors g p) -> edge_text g p k = Ok (stext (esym_of g) p k).
   Proof.
-    intros Hk. unfold neighbors in Hk. destruct (gfind p g) as [n|] eqn:Hf; [|contradiction].
+    intros Hk. pose proof Hp as Hp'. unfold neighbors in Hk. destruct (gfind p g) as [n|] eqn:Hf; [|contradiction].
     destruct (gfind_some p g n Hf) as [Hn _].
     destruct (adj_get_in k (nadj n) Hk) as [ea [Hg Hin]].
     unfold plain_graph in Hp. apply andb_prop in Hp as [_ H]. rewrite forallb_forall in H. specialize (H n Hn).
-    apply andb_prop in H as [H Hord]. apply andb_prop in H as [_ Ha].
+    apply andb_prop in H as [_ Hord].
     rewrite forallb_forall in Hord. specialize (Hord (k, ea) Hin). cbn [snd] in Hord. unfold order_ok in Hord.
     destruct (aget (S "order") ea) as [[| |z| | | | |]|] eqn:Eo; try discriminate.
     apply andb_prop in Hord as [H0 H4]. apply Z.leb_le in H0. apply Z.leb_le in H4.
-    apply negb_true_iff in Ha. unfold ahas in Ha. destruct (aget (S "aromatic") (na n)) eqn:Ea; [discriminate|].
-    unfold edge_text, write_edge_symbol, edge_order, edge_attrs, node_flag, node_attrs, stext, esym_of, order_of, edge_get, edge_attrs.
-    rewrite Hf, Hg. cbn [bind]. rewrite Eo, Ea. cbn [bind andb].
-    assert (C : z = 0 \/ z = 1 \/ z = 2 \/ z = 3 \/ z = 4) by lia. destruct C as [->|[->|[->|[->| ->]]]]; reflexivity.
+    (* the neighbour is a node *)
+    assert (Hm : exists m, gfind k g = Some m).
+    { unfold plain_graph in Hp'. apply andb_prop in Hp' as [Hw _]. unfold graph_wf in Hw. apply andb_prop in Hw as [_ Hw].
+      rewrite forallb_forall in Hw. specialize (Hw n Hn). apply andb_prop in Hw as [_ Hw]. rewrite forallb_forall in Hw.
+      specialize (Hw (k, ea) Hin). apply andb_prop in Hw as [_ Hw]. cbn [fst] in Hw. unfold edge_attrs in Hw.
+      destruct (gfind k g) as [m|]; [eauto|discriminate]. }
+    destruct Hm as [m Hm].
+    unfold edge_text, write_edge_symbol, edge_order, edge_attrs, node_flag, node_attrs, stext, esym_of, arom_of, node_get, order_of, edge_get, edge_attrs.
+    rewrite Hf, Hg, Hm. cbn [bind]. rewrite Eo.
+    assert (C : z = 0 \/ z = 1 \/ z = 2 \/ z = 3 \/ z = 4) by lia.
+    destruct (aget (S "aromatic") (na n)) as [vp|]; [destruct (truthy vp)|]; cbn [bind andb];
+      rewrite ?Hm; cbn [bind];
+      try (destruct (aget (S "aromatic") (na m)) as [vk|]; [destruct (truthy vk)|]);
+      cbn [bind andb]; destruct C as [->|[->|[->|[->| ->]]]]; reflexivity.
   Qed.
 End Plain.
 
